@@ -194,10 +194,8 @@ Qed.
 (* every function of the menu that returns a []any returns as many cells as it received *)
 Lemma apply_fn_any_length id x l : apply_fn id x = RAny l -> length l = length x.
 Proof.
-  destruct id as [|[|[|[|[|[|[|[|id]]]]]]]]; cbn [apply_fn]; intros H; inversion H.
-  - reflexivity.
-  - apply rev_length.
-  - apply map_length.
+  destruct id as [|[|[|[|[|[|[|[|[|[|id]]]]]]]]]]; cbn [apply_fn]; intros H; inversion H;
+    rewrite ?rev_length, ?map_length; reflexivity.
 Qed.
 Lemma no_panic_apply_row_cells id x : apply_row_cells id (length x) x <> Panic.
 Proof.
